@@ -93,11 +93,14 @@ fn tap_tree_string(rng: &mut Rng, leaves: &[String]) -> String {
     )
 }
 
+#[derive(Clone)]
 pub struct CaseCfg {
     pub max_nodes: usize,
     pub max_leaves: usize,
     pub chaos_pct: u32,
     pub repeat_keys: bool,
+    /// about half of the B leaves are time locks (mixed units on one path become common)
+    pub timelock_heavy: bool,
 }
 
 /// Generate a descriptor case. Keys are drawn from the world's universe.
@@ -187,6 +190,7 @@ pub fn gen_desc_case_with(rng: &mut Rng, world: &World, cfg: &CaseCfg, names: &d
             let mut gc = GenCfg::new(cx, cfg.max_nodes);
             gc.chaos_pct = cfg.chaos_pct;
             gc.repeat_keys = cfg.repeat_keys;
+            gc.timelock_heavy = cfg.timelock_heavy;
             let budget = 1 + rng.below(cfg.max_nodes);
             let f = if rng.chance(1, 6) {
                 crate::frag::ladder(rng, cx)
@@ -209,6 +213,7 @@ pub fn gen_desc_case_with(rng: &mut Rng, world: &World, cfg: &CaseCfg, names: &d
             let mut gc = GenCfg::new(Cx::Tap, cfg.max_nodes);
             gc.chaos_pct = cfg.chaos_pct;
             gc.repeat_keys = cfg.repeat_keys;
+            gc.timelock_heavy = cfg.timelock_heavy;
             {
                 let budget_total = 1 + rng.below(cfg.max_nodes);
                 let mut g = Gen::new(rng, gc);
